@@ -747,7 +747,14 @@ impl SortedUintVecBuilder {
             }
 
             let block_min = values[block_start];
-            
+
+            // Check if the block minimum fits in sample_width bits (it would be stored truncated otherwise)
+            if config.sample_width < 64 && block_min >= (1u64 << config.sample_width) {
+                return Err(ZiporaError::invalid_data(
+                    format!("value {} too large for sample_width {}", block_min, config.sample_width)
+                ));
+            }
+
             // Store block minimum in index
             Self::store_sample_static(&mut result.index, block_idx, block_min, config.sample_width)?;
 
